@@ -101,3 +101,104 @@ func CallSitesOf(c *core.Ctx, fn *ssa.Function) []ssa.CallInstruction {
 	}
 	return out
 }
+
+// FuncsOfType lists module functions (declared or literal) that are converted to / passed as the named
+// function type pkgPath.name anywhere in the module: the possible targets of a dynamic call of a value
+// of that type (type-based resolution of the quick tier).
+func FuncsOfType(c *core.Ctx, pkgPath, name string) []*ssa.Function {
+	set := map[*ssa.Function]bool{}
+	fnOf := func(v ssa.Value) *ssa.Function {
+		switch x := v.(type) {
+		case *ssa.Function:
+			return x
+		case *ssa.MakeClosure:
+			f, _ := x.Fn.(*ssa.Function)
+			return f
+		}
+		return nil
+	}
+	for _, g := range c.AllFuncs {
+		Instrs(g, func(in ssa.Instruction) {
+			switch x := in.(type) {
+			case *ssa.ChangeType:
+				if IsNamed(x.Type(), pkgPath, name) {
+					if f := fnOf(x.X); f != nil {
+						set[Unwrap(f)] = true
+					}
+				}
+			case ssa.CallInstruction:
+				sig := x.Common().Signature()
+				if sig == nil {
+					return
+				}
+				args := x.Common().Args
+				off := 0
+				if sig.Recv() != nil && !x.Common().IsInvoke() {
+					off = 1
+				}
+				for i := 0; i < sig.Params().Len() && i+off < len(args); i++ {
+					if IsNamed(sig.Params().At(i).Type(), pkgPath, name) {
+						if f := fnOf(args[i+off]); f != nil {
+							set[Unwrap(f)] = true
+						}
+					}
+				}
+			case *ssa.Store:
+				if p, ok := x.Addr.Type().(*types.Pointer); ok && IsNamed(p.Elem(), pkgPath, name) {
+					if f := fnOf(x.Val); f != nil {
+						set[Unwrap(f)] = true
+					}
+				}
+			}
+		})
+	}
+	var out []*ssa.Function
+	for f := range set {
+		out = append(out, f)
+	}
+	sort.Slice(out, func(i, j int) bool { return out[i].String() < out[j].String() })
+	return out
+}
+
+// ReachSet computes the module functions reachable from root through static calls, function literals
+// created on the way (they may be invoked later by callees) and the given resolution of dynamic calls.
+// `go` statements are not followed (they start another root).
+func ReachSet(root *ssa.Function, dyn func(call ssa.CallInstruction) []*ssa.Function) map[*ssa.Function]bool {
+	seen := map[*ssa.Function]bool{}
+	var walk func(f *ssa.Function)
+	walk = func(f *ssa.Function) {
+		if f == nil || seen[f] || f.Blocks == nil || !core.InModule(f) {
+			return
+		}
+		seen[f] = true
+		Instrs(f, func(in ssa.Instruction) {
+			switch x := in.(type) {
+			case *ssa.Go:
+				return
+			case ssa.CallInstruction:
+				if t := Callee(x); t != nil {
+					walk(t)
+				} else if dyn != nil {
+					for _, t := range dyn(x) {
+						walk(t)
+					}
+				}
+			case *ssa.MakeClosure:
+				// a literal created here and not started with go may be called by callees
+				isGo := false
+				for _, ref := range Referrers(x) {
+					if _, ok := ref.(*ssa.Go); ok {
+						isGo = true
+					}
+				}
+				if !isGo {
+					if fn, ok := x.Fn.(*ssa.Function); ok {
+						walk(fn)
+					}
+				}
+			}
+		})
+	}
+	walk(root)
+	return seen
+}
